@@ -13,6 +13,7 @@ package vsched
 import (
 	"fmt"
 	"runtime"
+	"strings"
 	"sync/atomic"
 	"unsafe"
 )
@@ -46,6 +47,7 @@ type Op struct {
 	Kind Kind
 	Addr uintptr
 	PC   uintptr // caller pc inside repository code (0 unless WantSites)
+	PC2  uintptr // its caller
 }
 
 type Thread struct {
@@ -99,14 +101,27 @@ func Point(k Kind, addr unsafe.Pointer) {
 	t := cur
 	t.Pending = Op{Kind: k, Addr: uintptr(addr)}
 	if WantSites {
-		var pcs [1]uintptr
-		// 0 = Callers, 1 = Point, 2 = shim function, 3 = repository code
-		if runtime.Callers(3, pcs[:]) == 1 {
+		var pcs [2]uintptr
+		// 0 = Callers, 1 = Point, 2 = shim function, 3 = repository code, 4 = its caller
+		if n := runtime.Callers(3, pcs[:]); n >= 1 {
 			t.Pending.PC = pcs[0]
+			if n == 2 {
+				t.Pending.PC2 = pcs[1]
+			}
 		}
 	}
 	ctl <- t
 	<-t.resume
+}
+
+// After is called by the shims, in the running thread, right after the operation published by the last Point was
+// performed (ok = success of a CAS / TryLock). StepHook records atomic-level traces.
+var StepHook func(t int, op Op, ok bool)
+
+func After(ok bool) {
+	if StepHook != nil && atomic.LoadInt32(&active) == 1 && cur != nil {
+		StepHook(cur.ID, cur.Pending, ok)
+	}
 }
 
 // UserPoint is a scheduling point inside a harness-supplied user function.
@@ -333,3 +348,39 @@ func SiteOf(pc uintptr) string {
 }
 
 func itoa(n int) string { return fmt.Sprint(n) }
+
+// FuncOf renders the function containing pc as a short name ("doCompute", "copyBucketOf", "Wait").
+func FuncOf(pc uintptr) string {
+	if pc == 0 {
+		return ""
+	}
+	fr, _ := runtime.CallersFrames([]uintptr{pc}).Next()
+	f := fr.Function
+	// drop type-argument lists: pkg.(*MapOf[...]).doCompute -> pkg.(*MapOf).doCompute
+	for {
+		i := strings.IndexByte(f, '[')
+		if i < 0 {
+			break
+		}
+		depth, j := 0, i
+		for ; j < len(f); j++ {
+			if f[j] == '[' {
+				depth++
+			} else if f[j] == ']' {
+				depth--
+				if depth == 0 {
+					break
+				}
+			}
+		}
+		if j >= len(f) {
+			f = f[:i]
+			break
+		}
+		f = f[:i] + f[j+1:]
+	}
+	if i := strings.LastIndexByte(f, '.'); i >= 0 {
+		f = f[i+1:]
+	}
+	return f
+}
